@@ -34,7 +34,8 @@ Pres == {<<>>, <<1>>, <<2, 5, 0, 0>>, N9(12), P10(11), N9(6), P10(6), <<9>>, <<1
 FinalsFor(p) == {<<>>, Dec1(p), p, Inc(p), U32, Inc(U32), Inc(U63), U64, <<1>>} \cup (IF Thorough THEN {N9(k) : k \in 1..19} ELSE {})
 Currencies == {752, 826, 978}
 Receipts == {1, 9, 10, 99, 100, 231, 999, 1000, 9999}
-Toks == {<<97>>, <<65, 67>>, <<255, 1, 128>>, Ascii(40, 3), <<32>>, Ascii(7, 50)}
+\* (the long ones put the reservation / the release on both sides of the 254 / 255 byte APDU length switch)
+Toks == {<<97>>, <<65, 67>>, <<255, 1, 128>>, Ascii(40, 3), <<32>>, Ascii(7, 50)} \cup {Ascii(n, 11) : n \in 222..230}
 Statuses == {[amount |-> <<2, 5, 0, 0>>, trace |-> <<9, 7, 5>>, date |-> <<4, 5>>, time |-> <<2, 2, 5, 5, 5, 8>>, terminal_id |-> <<5, 2, 5, 2, 3, 5, 3, 5>>],
              [amount |-> <<>>, trace |-> <<>>, date |-> <<1>>, time |-> <<5>>, terminal_id |-> <<7>>],
              [amount |-> N9(12), trace |-> N9(6), date |-> <<1, 2, 3, 1>>, time |-> <<2, 3, 5, 9, 5, 9>>, terminal_id |-> N9(8)],
@@ -98,19 +99,30 @@ NoInter(o, e) == \/ Ops[o].name = "configure" /\ (e = 1 \/ (Ops[o].tid # "525235
 \* exchanges whose reply set has a status information that may precede the final packet: reservation, the reversals, end of day
 StatusOk(o, e) == \/ (Ops[o].name \in {"begin", "commit", "cancel"} /\ ~NoInter(o, e))
                   \/ (Ops[o].name = "configure" /\ (e = Ops[o].n \/ (Ops[o].dang # <<>> /\ e = Ops[o].n - 1)))
-Codes == IF Thorough THEN 0..255 ELSE {0, 1, 100, 108, 119, 131, 160, 181, 183, 184, 252, 255} \cup {c \in 0..255 : c % 16 = 5}
+Codes == IF Thorough THEN 0..255 ELSE {0, 1, 100, 108, 119, 131, 160, 180, 181, 183, 184, 252, 255} \cup {c \in 0..255 : c % 16 = 5}
 \* i = 0..2 intermediate statuses in front of the abort; i = 3: a status information in front of it
-C20Cases == SetSeq({<<o, e, code, i>> \in (1..Len(Ops)) \X (1..6) \X Codes \X (0..3) :
-                      e <= Ops[o].n /\ (i = 0 \/ (i \in {1, 2} /\ code \in {108, 160, 183, 252} /\ ~NoInter(o, e)) \/ (i = 3 /\ StatusOk(o, e)))})
+\* i = 4 / 5: the abort names a receipt number (06 1E 04 cc 87 rr rr): 8 / the "none" marker FFFF
+C20Cases == SetSeq({<<o, e, code, i>> \in (1..Len(Ops)) \X (1..6) \X Codes \X (0..5) :
+                      e <= Ops[o].n /\ (i = 0 \/ (i \in {1, 2} /\ code \in {108, 160, 183, 252} /\ ~NoInter(o, e)) \/ (i \in {3, 4, 5} /\ StatusOk(o, e)))})
+\* i = 6 / 7: the connection is closed at frame 0 / 1 of the exchange and the terminal aborts the re-sent request with the code
+RetryCodes == {5, 108, 160, 180, 183, 252}
+C20Retry == SetSeq({<<o, e, code, i>> \in (1..Len(Ops)) \X (1..6) \X RetryCodes \X {6, 7} : e <= Ops[o].n})
 C20Scenario(x) ==
   LET op == Ops[x[1]]
       setup == [k \in 1..Len(op.pre) |-> [op |-> op.pre[k], token |-> <<97>>, amount |-> <<>>]]
       okp == [o |-> "ok", status |-> [amount |-> <<1>>]]
-      pl == [k \in 1..(Len(op.pre) + op.n) |->
+      pl0 == [k \in 1..(Len(op.pre) + op.n) |->
                IF k = Len(op.pre) + x[2]
                THEN (IF x[4] = 3 THEN [o |-> "abort", code |-> x[3], inter |-> 0, status_first |-> TRUE, status |-> [amount |-> <<1>>]]
+                     ELSE IF x[4] = 4 THEN [o |-> "abort", code |-> x[3], inter |-> 0, abort_receipt |-> 8]
+                     ELSE IF x[4] = 5 THEN [o |-> "abort", code |-> x[3], inter |-> 0, abort_receipt |-> 65535]
                      ELSE [o |-> "abort", code |-> x[3], inter |-> x[4]])
-               ELSE okp] IN
+               ELSE okp]
+      plr == [k \in 1..(Len(op.pre) + x[2] - 1) |-> okp]
+             \o << [o |-> "ok", status |-> [amount |-> <<1>>], uid |-> <<1, 2, 3, 4>>, fault |-> [pos |-> x[4] - 6, kind |-> "close"]],
+                   [o |-> "abort", code |-> x[3]] >>
+             \o [k \in 1..(op.n + 3) |-> okp]
+      pl == IF x[4] >= 6 THEN plr ELSE pl0 IN
   [config |-> [BaseCfg EXCEPT !.terminal_id = op.tid], term |-> [next_receipt |-> 1, dangling |-> op.dang],
    calls |-> setup \o << [op |-> op.name, token |-> <<97>>, amount |-> <<1>>] >>,
    plan |-> [exchanges |-> pl]]
@@ -172,7 +184,7 @@ FaultScenario(x) ==
    plan |-> [exchanges |-> pl, handshake |-> IF x.k = "hs" THEN <<x.hs>> ELSE <<>>,
              default |-> OkPlan]]
 
-Cases == CASE Mode = "C08" -> C08Cases [] Mode = "C18" -> C18Cases [] Mode = "C20" -> C20Cases [] Mode \in {"C09", "C10"} -> FaultCases
+Cases == CASE Mode = "C08" -> C08Cases [] Mode = "C18" -> C18Cases [] Mode = "C20" -> C20Cases \o C20Retry [] Mode \in {"C09", "C10"} -> FaultCases
 AllCases == SubSeq(Cases, 1, Len(Cases))
 ScenarioOf(x) == CASE Mode = "C08" -> C08Scenario(x) [] Mode = "C18" -> C18Scenario(x) [] Mode = "C20" -> C20Scenario(x)
                    [] Mode \in {"C09", "C10"} -> FaultScenario(x)
